@@ -105,6 +105,82 @@ func staleAckScenario(ids []*identity, restartB bool) (string, []string) {
 	return "", steps
 }
 
+// staleRecvScenario: the sender restarts with a message pending (fresh tracker,
+// message sequence numbers restart at 1) and re-attaches over its older call,
+// which is still registered at the relay, so the receiver sees Opened n
+// directly followed by Opened n'; the new message is still queued relay->B
+// (back pressure) when B's application calls Recv.  A Send must not succeed
+// unless B's application was handed exactly that message.
+func staleRecvScenario(ids []*identity) (string, []string) {
+	var steps []string
+	le := quietLogger()
+	ctx, cancel := context.WithCancel(context.Background())
+	defer cancel()
+	net := newRelayNet(le)
+	A, B := ids[0], ids[1]
+	ncA, ncB := net.client(A.pid), net.client(B.pid)
+	// A's streams stay registered at the relay after A closed them (the relay has not noticed)
+	ncA.setLinger(true)
+	defer ncA.killAll()
+	defer ncB.killAll()
+	ctxA, cancelA := context.WithCancel(ctx)
+	cA, cB := newClient(le, ncA, A), newClient(le, ncB, B)
+	cA.SetContext(ctxA)
+	cB.SetContext(ctx)
+	refA, refB := cA.AddPeerRef(B.str), cB.AddPeerRef(A.str)
+	if !waitUntil(5*time.Second, func() bool { return refA.VerifState().Open != nil && refB.VerifState().Open != nil }) {
+		return "", append(steps, "setup: sessions did not open")
+	}
+	steps = append(steps, fmt.Sprintf("A and B attached (epoch %d)", *refB.VerifState().Open))
+	// x is delivered to B's client, B's application does not read it
+	startSend(ctx, refA, []byte("x"), nil)
+	if !waitUntil(3*time.Second, func() bool { return refB.VerifState().Recv != nil }) {
+		return "", append(steps, "setup: x did not reach B's client")
+	}
+	steps = append(steps, "A.Send(x) pending (seqno 1); x buffered in B's client, B's application has not called Recv")
+	// A restarts: its old stream stays registered at the relay
+	e0 := *refB.VerifState().Open
+	cancelA()
+	cA.ClearContext()
+	time.Sleep(5 * time.Millisecond)
+	cA2 := newClient(le, ncA, A)
+	cA2.SetContext(ctx)
+	refA2 := cA2.AddPeerRef(B.str)
+	if !waitUntil(5*time.Second, func() bool {
+		st := refB.VerifState()
+		return st.Open != nil && *st.Open != e0 && refA2.VerifState().Open != nil
+	}) {
+		return "", append(steps, "setup: the restarted A did not attach")
+	}
+	steps = append(steps, fmt.Sprintf("A restarted with a fresh tracker and re-attached over its older call: B sees Opened %d directly after Opened %d", *refB.VerifState().Open, e0))
+	// back pressure relay->B, then the new message y (seqno 1 again)
+	connB := ncB.last()
+	connB.setHold(true)
+	sY := startSend(ctx, refA2, []byte("y"), nil)
+	time.Sleep(20 * time.Millisecond)
+	steps = append(steps, "relay->B back-pressured; A.Send(y) (seqno 1 of the fresh tracker) in flight, y queued relay->B")
+	rB := startRecv(ctx, refB, nil)
+	steps = append(steps, "B's application calls Recv")
+	handedY := func() bool {
+		done, ok, m := rB.result()
+		return done && ok && string(m.GetSignedMsg().GetData()) == "y"
+	}
+	if sY.wait(200 * time.Millisecond) {
+		if _, ok, _ := sY.result(); ok && !handedY() {
+			got := "nothing"
+			if done, ok2, m := rB.result(); done && ok2 {
+				got = fmt.Sprintf("%q", m.GetSignedMsg().GetData())
+			}
+			return fmt.Sprintf("A.Send(y) reported success while y was still queued relay->B; B's application was handed %s", got), steps
+		}
+	}
+	connB.setHold(false)
+	if !sY.wait(3*time.Second) || !handedY() {
+		return "", append(steps, "note: after releasing the back pressure Send(y) / Recv did not complete with y")
+	}
+	return "", steps
+}
+
 func c21(c *hx.Ctx) {
 	c.Type = "c21_case"
 	c.Agree = "c21_agree"
@@ -198,6 +274,17 @@ func c21(c *hx.Ctx) {
 		c.Class("net:stale-ack-regression")
 		if what != "" {
 			c.Failf("c21-stale-ack-across-reopen", map[string]any{"history": steps}, "%s", what)
+		}
+	}
+	for i := 0; i < 2; i++ {
+		what, steps := staleRecvScenario(ids)
+		c.Eval()
+		c.Class("net:stale-recv-across-reopen")
+		if what != "" {
+			c.Failf("c21-send-ok-before-partner-recv", map[string]any{"history": steps}, "%s", what)
+		} else if n := len(steps); n > 0 && (len(steps[n-1]) > 5 && (steps[n-1][:5] == "setup" || steps[n-1][:4] == "note")) {
+			c.Class("net:stale-recv-scenario-incomplete")
+			c.Extra["stale-recv-scenario"] = steps
 		}
 	}
 	// (b) concurrent histories
